@@ -53,11 +53,23 @@ def gen_cases(ctx):
                     feeds = [("n", 0, x) for x in scalar_stream(r, n, rot.pick((ind, "n"), ["walk", "signed", "ties", "grid", "mixed"]))]
                 cases.append(Case("%s_g%d_%d" % (ind, gi, rep), [new_op(0, ind, pr)] + feeds, dump=(0,),
                                   meta={"ind": ind, "params": pr, "n": n}))
+    # Default::default() instances are instances too: the documented defaults, wired as documented (seed-independent)
+    from props.C11 import DEFAULTS
+    for ind in KINDS:
+        dflt = DEFAULTS[ind]
+        per = [x for x in dflt if isinstance(x, int)]
+        m = [x for x in dflt if isinstance(x, float)]
+        pr = tuple(per + [0] * (3 - len(per))) + ((m[0] if m else 0.0),)
+        ops = [("def", 0, ind), new_op(1, ind, pr)]
+        src = long_feed(ind, 40) if ind != "CE" else [("b", 0) + b for b in tr_bars(r, 40)]
+        for o in src:
+            ops += [o, (o[0], 1) + tuple(o[2:])]
+        cases.append(Case("%s_default" % ind, ops, dump=(0, 1), meta={"ind": ind, "params": pr, "n": 40, "default": True}))
     return with_scaled(cases, r)
 
 
 def nontrivial(c):
-    vals = [tuple(o[2:]) for o in c.ops[1:]]
+    vals = [tuple(o[2:]) for o in c.ops[1:] if o[0] in 'nb']
     return len(vals) >= 3 and len(set(vals)) > 1
 
 
@@ -80,5 +92,10 @@ def check_impl(ctx, cases):
             x = c.ops[1][2]
             if c.obs[1] != ("o", [bits(x) if x == x else 0x7ff8000000000000]):
                 out.append(Violation("EMA%s does not return its first input unchanged: %r -> %s" % (c.meta["params"][:1], x, c.obs[1]), case=c))
+    for c in cases:
+        if c.meta.get("default"):
+            a, b = outs_of(c, 0), outs_of(c, 1)
+            if [x[1] for x in a] != [x[1] for x in b]:
+                out.append(Violation("%s::default() is not wired as %s%s: outputs differ from new(...) on the same inputs" % (c.meta["ind"], c.meta["ind"], c.meta["params"]), case=c))
     ctx.stats["period_tuples"] = sorted({c.meta["params"][:3] for c in cases})[:40]
     return out
